@@ -1029,6 +1029,22 @@ class Engine:
                 fv = fv[2]
             if fv[0] == "fn" and len(fv) > 2 and isinstance(fv[2], dict):
                 callee = fv[2]          # a function pointer whose value is a known fn item
+        arg_tys = None
+        if callee is not None and (callee.get("trait") or "").startswith("core::ops::function::Fn") and len(args) == 2:
+            # a plain function item passed down as `impl Fn*` / generic F and called there (`encode(data, &mut buf)` with encode = varint_u16):
+            # after inlining its value is known, and the call is a direct call of that function
+            cv = args[0]
+            if cv[0] == "ref":
+                cv = self.read(st, cv[1])
+            cal = _callable(self, cv)
+            tup = args[1]
+            if cal is not None and cal[0] == "fn" and tup[0] == "agg" and tup[1] == "tuple":
+                f2 = self.facts.fn_by_canon(cal[1].get("canon") or "")
+                if f2 is None or f2.argc == len(tup[5]):
+                    callee = dict(cal[1])
+                    args = list(tup[5])
+                    if f2 is not None:
+                        arg_tys = [f2.locals[i + 1]["ty"] for i in range(f2.argc)]
         key = callee_key(callee)
         cid = next(st.ids)
         dest = self.place_loc(st, fr, t["dest"], "w")
@@ -1173,8 +1189,8 @@ class Engine:
         ev["result"] = r
         # havoc memory reachable through &mut / *mut arguments
         if callee is not None and not (callee["name"] in NO_WRITE_NAMES and (callee.get("def") or "").startswith(("core::", "std::", "alloc::"))):
-            for a, ja in zip(args, t["args"]):
-                aty = _operand_ty(fn, ja)
+            for i_, (a, ja) in enumerate(zip(args, t["args"] if arg_tys is None else args)):
+                aty = _operand_ty(fn, ja) if arg_tys is None else arg_tys[i_]
                 if aty.startswith("&mut") or aty.startswith("*mut"):
                     if a[0] == "ref":
                         self.havoc(st, a[1], cid)
@@ -2092,6 +2108,10 @@ COMBINATORS = {
     ("O", "map_or_else"): {"Some": ("val", ("call", 3, [("pay", "Some")])), "None": ("val", ("call", 2, []))},
     ("O", "ok_or"): {"Some": ("wrap", RES, "Ok", 0, ("pay", "Some")), "None": ("wrap", RES, "Err", 1, ("arg", 2))},
     ("O", "ok_or_else"): {"Some": ("wrap", RES, "Ok", 0, ("pay", "Some")), "None": ("wrap", RES, "Err", 1, ("call", 2, []))},
+    ("O", "is_some_and"): {"Some": ("val", ("call", 2, [("pay", "Some")])), "None": ("val", ("bool", 0))},
+    ("O", "is_none_or"): {"Some": ("val", ("call", 2, [("pay", "Some")])), "None": ("val", ("bool", 1))},
+    ("R", "is_ok_and"): {"Ok": ("val", ("call", 2, [("pay", "Ok")])), "Err": ("val", ("bool", 0))},
+    ("R", "is_err_and"): {"Ok": ("val", ("bool", 0)), "Err": ("val", ("call", 2, [("pay", "Err")]))},
     ("B", "then_some"): {"true": ("wrap", OPT, "Some", 1, ("arg", 2)), "false": ("none",)},
     ("B", "then"): {"true": ("wrap", OPT, "Some", 1, ("call", 2, [])), "false": ("none",)},
 }
@@ -2141,6 +2161,8 @@ def _syn_combinator(fam, name):
                 return _mv(1, [{"k": "downcast", "name": x[1]}, {"k": "field", "name": "0"}])
             if x[0] == "arg":
                 return _mv(x[1])
+            if x[0] == "bool":
+                return {"k": "const", "ty": "bool", "int": x[1]}
             raise ValueError(x)
 
         def arm_blocks(spec):
